@@ -529,13 +529,23 @@ class StartRequests(Observer):
             prev.append((target, now))
             self._probe('distribution_rule_checked')
             return
-        # strategy optimality, only when S has no other outstanding request (loads are then unambiguous)
-        if self._pending(s, now, liberal=True):
-            if any(now - r['t_us'] < 30 * US and
-                   procs.get(r['ns'], ('', set(), 'STOPPED'))[2] in STOPPED_STATES + ('STARTING', 'BACKOFF')
-                   for r in self._pending(s, now, liberal=True)):
-                self._probe('placement_skipped_pending')
-                return
+        # strategy optimality, judged when the loads are unambiguous: the outstanding requests of S are either certainly
+        # counted as requested load (sent < 5 s ago, no event since, process still stopped in S's view) or absent
+        certain = [r for r in self._pending(s, now) if r['ns'] != ns
+                   and procs.get(r['ns'], ('', set(), 'STOPPED'))[2] in STOPPED_STATES]
+        certain_ids = {id(r) for r in certain}
+        if any(id(r) not in certain_ids and r['ns'] != ns and now - r['t_us'] < 30 * US and
+               procs.get(r['ns'], ('', set(), 'STOPPED'))[2] in STOPPED_STATES + ('STARTING', 'BACKOFF')
+               for r in self._pending(s, now, liberal=True)):
+            self._probe('placement_skipped_pending')
+            return
+        # commands of non-distributed applications hold an instance before being requested: not observable here
+        if any(getattr(job, 'distribution', None) is not None and job.distribution.name != 'ALL_INSTANCES'
+               for job in s.supvisors.starter.current_jobs.values()):
+            self._probe('placement_skipped_non_distributed_job')
+            return
+        if certain:
+            self._probe('placement_with_pending')
         t_stop = self.stops.get((s.nick, s.incarnation, app), -1)
         t_handler = self.handler_plans.get((s.nick, s.incarnation, app), -1)
         if op and t_handler >= op[0]:
@@ -562,37 +572,54 @@ class StartRequests(Observer):
             return
         proc = s.supvisors.context.applications[app].processes[ns.split(':')[1]]
         order = list(states) if '*' in rule_ids else s.supvisors.mapper.filter(list(rule_ids))
-        inst_load, node_load = {}, {}
-        for ident in states:
-            inst_load[ident] = sum(loads[q] for q, (_s, idents, real) in procs.items()
-                                   if ident in idents and real in RUNNING_STATES)
-        for ident in states:
-            node_load[ident] = sum(v for i, v in inst_load.items() if self._node_of(i) == self._node_of(ident))
-        elig = []
-        for ident in order:
-            if states.get(ident) != 'RUNNING':
-                continue
-            info = proc.info_map.get(ident)
-            if info is None or info.get('disabled'):
-                continue
-            if node_load[ident] + loads.get(ns, 0) > 100:
-                continue
-            elig.append(ident)
+
+        def verdict(pending):
+            inst_load, node_load = {}, {}
+            for ident in states:
+                inst_load[ident] = sum(loads[q] for q, (_s, idents, real) in procs.items()
+                                       if ident in idents and real in RUNNING_STATES)
+            for r in pending:
+                if r['target'] in inst_load:
+                    inst_load[r['target']] += loads.get(r['ns'], 0)
+            for ident in states:
+                node_load[ident] = sum(v for i, v in inst_load.items() if self._node_of(i) == self._node_of(ident))
+            elig = []
+            for ident in order:
+                if states.get(ident) != 'RUNNING':
+                    continue
+                info = proc.info_map.get(ident)
+                if info is None or info.get('disabled'):
+                    continue
+                if node_load[ident] + loads.get(ns, 0) > 100:
+                    continue
+                elig.append(ident)
+            d = dict(detail, strategy=strategy, eligible=elig, instance_load=inst_load, node_load=node_load)
+            if target not in elig:
+                return None, d  # C04's business
+            if strategy == 'CONFIG' and target != elig[0]:
+                return 'config-order', d
+            if strategy == 'LESS_LOADED' and inst_load[target] > min(inst_load[i] for i in elig):
+                return 'less-loaded', d
+            if strategy == 'MOST_LOADED' and inst_load[target] < max(inst_load[i] for i in elig):
+                return 'most-loaded', d
+            if strategy == 'LESS_LOADED_NODE' and node_load[target] > min(node_load[i] for i in elig):
+                return 'less-loaded-node', d
+            if strategy == 'MOST_LOADED_NODE' and node_load[target] < max(node_load[i] for i in elig):
+                return 'most-loaded-node', d
+            if strategy == 'LOCAL' and target != s.identifier:
+                return 'local', d
+            return None, d
+
         self._probe('placement_checked_%s' % strategy)
-        if target not in elig:
-            return  # C04's business
-        d = dict(detail, strategy=strategy, eligible=elig, instance_load=inst_load, node_load=node_load)
-        if strategy == 'CONFIG' and target != elig[0]:
-            self.v('C14', 'config-order', d, 'config-order')
-        elif strategy == 'LESS_LOADED' and inst_load[target] > min(inst_load[i] for i in elig):
-            self.v('C14', 'less-loaded', d, 'less-loaded')
-        elif strategy == 'MOST_LOADED' and inst_load[target] < max(inst_load[i] for i in elig):
-            self.v('C14', 'most-loaded', d, 'most-loaded')
-        elif strategy == 'LESS_LOADED_NODE' and node_load[target] > min(node_load[i] for i in elig):
-            self.v('C14', 'less-loaded-node', d, 'less-loaded-node')
-        elif strategy == 'MOST_LOADED_NODE' and node_load[target] < max(node_load[i] for i in elig):
-            self.v('C14', 'most-loaded-node', d, 'most-loaded-node')
-        elif strategy == 'LOCAL' and target != s.identifier:
-            self.v('C14', 'local', d, 'local')
+        clause, d = verdict(certain)
+        if clause is None:
+            return
+        # known mechanism (C04 finding): the jobs of the applications of one sequence are processed in one pass and an
+        # application job only counts its own requested loads: the requests of the OTHER applications are ignored
+        own = [r for r in certain if r.get('app') == app]
+        if len(own) != len(certain) and verdict(own)[0] is None:
+            self.v('C14', clause, d, clause + ':concurrent-applications-ignore-each-other')
+        else:
+            self.v('C14', clause, d, clause)
 
     strategy_known = True
